@@ -252,6 +252,7 @@ pub proof fn lemma_first_bad(q: Seq<ZMsg>, i: int, n: int)
 // (one element of `zoom_receivers`: (size, receiver, level writer)) becomes the parameter.
 #[verifier::loop_isolation(false)]
 //@extract fn bigtools/src/bbi/bbiwrite.rs write_zoom_vals
+//@rule R16
 //@presub /\A.*?\n[ \t]*(let mut sections = vec!\[\];)\s*let handle = runtime\.spawn\(async move \{\n(.*?)\n        \}\);.*\Z/ => fn level_task(rcv: (u32, Mailbox<ZMsg>, LevelFile)) -> Result<(LevelFile, Vec<SecIter>, usize), ProcessDataError> {\n        \1\n\2\n} min=1 count=1
 //@rule R1
 //@sub /let mut max_uncompressed_buf_size = 0;/ => let mut max_uncompressed_buf_size: usize = 0; min=0
@@ -372,6 +373,7 @@ pub proof fn lemma_zidx(zs: Seq<InternalTempZoomInfo>, j: int)
 
 #[verifier::loop_isolation(false)]
 //@extract closure bigtools/src/bbi/bbiwrite.rs write_zoom_vals advance
+//@rule R16
 //@header fn advance_zoom_vals(p: ProcZ, zooms_map: &mut SMap)
 //@sub /for (InternalTempZoomInfo \{[^{}]*\})\s+in zooms\.into_iter\(\)\s*\{/ => let mut src__ = zooms; while src__.len() > 0 { let \1 = src__.remove(0); min=0
 //@sub /(zooms_map\.get_mut\([^()]*\))\.unwrap\(\)/ => level_present(\1) min=0
@@ -559,6 +561,7 @@ pub open spec fn lv_all_ok(hs: Seq<LevelHandle>, n: int) -> bool { forall|k: int
 // (`file = first_data.1.await_real_file();`).
 #[verifier::loop_isolation(false)]
 //@extract fn bigtools/src/bbi/bbiwrite.rs write_zoom_vals
+//@rule R16
 //@presub /\A.*?\n(    let mut zoom_entries = Vec::with_capacity\(zooms\.len\(\)\);.*)\n\}\s*\Z/ => fn zoom_tail(zooms: Vec<LevelHandle>, zoom_files: Vec<(u32, StageBuf<OutFile>)>, first_zoom_data_offset: u64, mut max_uncompressed_buf_size: usize, runtime: &Runtime, options: BBIWriteOptions) -> Result<(OutFile, Vec<ZoomHeader>, usize), BBIProcessError> {\n    let mut file: OutFile;\n\1\n} min=1 count=1
 //@sub /(\w+(?:\.\d+)?)\.into_iter\(\)\.flatten\(\)/ => flatten_lists(\1) min=0
 //@sub /\b(zooms|zoom_files)\.into_iter\(\)/ => viter(\1) min=0
@@ -681,6 +684,7 @@ pub open spec fn chan_fresh(m: Map<u32, ZSender<ZMsg>>, size: u32, cap: int) -> 
 // Carve-out: from `let mut zoom_receivers = ..` to the closing brace of the construction loop.
 #[verifier::loop_isolation(false)]
 //@extract fn bigtools/src/bbi/bbiwrite.rs write_zoom_vals
+//@rule R16
 //@presub /\A.*?\n(    let mut zoom_receivers = Vec::with_capacity\(zooms\.len\(\)\);.*?\n    \})\n\s*let first_zoom_data_offset.*\Z/ => fn build_levels(zooms: &Vec<u32>, options: &BBIWriteOptions, chrom_ids: &StrMap) -> (Vec<(u32, Mailbox<ZMsg>, LevelFile)>, Vec<(u32, StageBuf<OutFile>)>, SMap) {\n\1\n    (zoom_receivers, zoom_files, zooms_map)\n} min=1 count=1
 //@sub /BTreeMap<u32, ZoomSender<_, _>> = BTreeMap::new\(\)/ => SMap = SMap::new() min=1
 //@sub /for size in zooms\.iter\(\)\.copied\(\) \{/ => let mut j__: usize = 0;\n    while j__ < zooms.len() {\n        let size = zooms[j__]; j__ = j__ + 1; min=0
@@ -738,6 +742,7 @@ impl Runtime {
 // body (under contract as `level_task`) is replaced by the logged `spawn_level(rcv)`.
 #[verifier::loop_isolation(false)]
 //@extract fn bigtools/src/bbi/bbiwrite.rs write_zoom_vals
+//@rule R16
 //@presub /\A.*?\n(    let mut zooms = Vec::with_capacity\(zoom_receivers\.len\(\)\);\s*for rcv in zoom_receivers \{.*?\n    \})\n\s*vals_iter\.process_to_bbi.*\Z/ => fn spawn_levels(zoom_receivers: Vec<(u32, Mailbox<ZMsg>, LevelFile)>, runtime: &Runtime) -> Vec<LevelHandle> {\n\1\n    zooms\n} min=1 count=1
 //@presub /let mut sections = vec!\[\];\s*let handle = runtime\.spawn\(async move \{.*?\n        \}\);/ => let handle = runtime.spawn_level(rcv); min=1 count=1
 //@sub /for rcv in zoom_receivers \{/ => let mut src__ = zoom_receivers;\n    while src__.len() > 0 {\n        let rcv = src__.remove(0); min=0
